@@ -671,7 +671,7 @@ def _m_tuple(I, args, kwargs, node):
     v = I.iterable(args[0], node)
     if isinstance(v, (list, tuple)):
         return tuple(v)
-    raise Unsupported("tuple() of a symbolic list")
+    return v.copy()      # a tuple of symbolic length: an (unmodified) list value
 
 
 def _m_str(I, args, kwargs, node):
